@@ -75,7 +75,33 @@ def _master_screen_file(ctx, rep):
                    [norm(r.value) for r in rets]), ctx.where(fn))
 
 
+def _mode_change_and_width(ctx, rep):
+    """A mode or width change resets the text window *before* the cursor is sent to its top row; and when PRINT decides whether
+    a string still fits before the right margin, every printable character counts, the space (32) included."""
+    im = ctx.fn('pcbasic/basic/display/textscreen.py:TextScreen.init_mode')
+    reset = [c for c in own_nodes(im) if isinstance(c, ast.Call) and norm(c.func) == 'self.scroll_area.init_mode']
+    home = [c for c in own_nodes(im) if isinstance(c, ast.Call) and norm(c.func) == 'self.set_pos' and 'self.scroll_area.top' in norm(c)]
+    rep.ob('mode-change.window-reset-before-home', 'init_mode resets the text window, then homes the cursor to its top row',
+           len(reset) == 1 and len(home) == 1 and (reset[0].lineno, reset[0].col_offset) < (home[0].lineno, home[0].col_offset),
+           'the cursor is sent to the top of the OLD window (VIEW PRINT 5 TO 10: WIDTH 40 leaves it on row 5 of a cleared screen)', ctx.where(im))
+    bar = [c for c in own_nodes(im) if isinstance(c, ast.Call) and norm(c.func) == 'self.redraw_bar']
+    rep.ob('mode-change.cursor-inside-before-redraw', 'init_mode redraws the key bar only after the cursor has been homed into the new screen',
+           len(bar) == 1 and len(home) == 1 and (home[0].lineno, home[0].col_offset) < (bar[0].lineno, bar[0].col_offset),
+           'the bar is redrawn while the cursor still has its old column: beyond the new width, refreshing it ends in IndexError (KEY ON: LOCATE 1,60: WIDTH 40)', ctx.where(im))
+    wr = ctx.fn('pcbasic/basic/devices/devicebase.py:SCRNFile.write')
+    tests = [c for c in own_nodes(wr) if isinstance(c, ast.Compare) and len(c.ops) == 1 and norm(c.left) == 'c' and isinstance(c.ops[0], (ast.Gt, ast.GtE))
+             and isinstance(ctx.fold(c.comparators[0]), bytes) and len(ctx.fold(c.comparators[0])) == 1]
+    rep.floor('width.printable-threshold', len(tests), 1, 'printable-character tests in SCRNFile.write')
+    for c in tests:
+        k = ctx.fold(c.comparators[0])[0]
+        lowest = k if isinstance(c.ops[0], ast.GtE) else k + 1
+        rep.ob('width.printable-threshold', 'SCRNFile.write counts every character from 32 (space) up: %s' % norm(c), lowest == 32,
+               'characters are counted from %d up: a string with spaces is taken to be shorter than it is and is split at the margin instead of moved to the next row' % lowest,
+               ctx.where(c))
+
+
 def check(ctx, rep):
+    _mode_change_and_width(ctx, rep)
     from ..optargs import check as _optargs
     _optargs(ctx, rep, ['pcbasic/basic/display/textscreen.py', 'pcbasic/basic/console.py', 'pcbasic/basic/display/display.py'], 3,
              {('TextScreen.screen_fn_', 'want_attr'): 'the third argument of SCREEN(row, col, z) is a flag: any non-zero z asks for the attribute, 0 and omitted both ask for the character'})
@@ -242,6 +268,32 @@ def _drop_last_wrap(fn):
 
 def variants(ctx):
     return _variants0(ctx) + [
+        mu.Variant('cursor-homed-before-window-reset', 'break', 'pcbasic/basic/display/textscreen.py',
+                   lambda tree: _swap_last_two(mu.find_def(tree, 'TextScreen.init_mode')), expect='mode-change.window-reset-before-home'),
+        mu.Variant('key-bar-redrawn-before-the-cursor-is-homed', 'break', 'pcbasic/basic/display/textscreen.py',
+                   lambda tree: _bar_first(mu.find_def(tree, 'TextScreen.init_mode')), expect='mode-change.cursor-inside-before-redraw'),
+        mu.Variant('spaces-not-counted-for-fit', 'break', 'pcbasic/basic/devices/devicebase.py',
+                   lambda tree: mu.replace_expr(mu.find_def(tree, 'SCRNFile.write'), mu.text_is("c >= b' '"), "c > b' '"), expect='width.printable-threshold'),
         mu.Variant('cls-zero-treated-as-omitted', 'break', 'pcbasic/basic/display/display.py',
                    lambda tree: (lambda fn: mu.replace_expr(fn, mu.text_is('val is None'), 'not val'))(mu.find_def(tree, 'Display.cls_')), expect='arguments.zero-is-not-omitted'),
     ]
+
+
+def _swap_last_two(fn):
+    ia = [i for i, st in enumerate(fn.body) if 'scroll_area.init_mode' in norm(st)]
+    ib = [i for i, st in enumerate(fn.body) if 'self.set_pos(' in norm(st)]
+    if len(ia) != 1 or len(ib) != 1 or ib[0] != ia[0] + 1:
+        return False
+    fn.body[ia[0]], fn.body[ib[0]] = fn.body[ib[0]], fn.body[ia[0]]
+    return True
+
+
+def _bar_first(fn):
+    ib = [i for i, st in enumerate(fn.body) if 'self.redraw_bar()' in norm(st)]
+    ia = [i for i, st in enumerate(fn.body) if 'scroll_area.init_mode' in norm(st)]
+    if len(ia) != 1 or len(ib) != 1:
+        return False
+    st = fn.body.pop(ib[0])
+    fn.body.insert(ia[0], st)
+    return True
+
